@@ -14,7 +14,7 @@ Nothing is ever committed in /repo.
 """
 import json, os, shutil, subprocess, sys, time
 
-ENV = dict(os.environ, GOFLAGS='-mod=mod', GOPROXY='off', GOSUMDB='off', GOTOOLCHAIN='local')
+ENV = dict(os.environ, GOFLAGS='-mod=mod', GOPROXY='off', GOSUMDB='off', GOTOOLCHAIN='local', VERIF_EVIDENCE_DIR='/tmp/verif-scratch-evidence')
 
 def run(cmd, cwd=None, timeout=1800):
     p = subprocess.run(cmd, cwd=cwd, env=ENV, shell=isinstance(cmd, str), capture_output=True, text=True, errors='replace', timeout=timeout)
